@@ -53,4 +53,10 @@ CLAIMED = {
   "text": "For every value of every field at once (format/codec discriminators enumerated completely): Encode emits exactly the FLV E.4.2/E.4.3 layout with no field bleeding into another, Decode run on that layout with payloads of any length accepts it, stays in bounds and returns each field's own bits and the payload; every defined rate code folds to its frequency. Payload bytes are an opaque blob.",
   "note": "Field domains are those the property quantifies over (stated in the evidence assumptions); layout table transcribed from FLV Annex E and the Opus extension documented in flv.go.",
  },
+
+ "C11": {
+  "technique": "bit-provenance abstract interpretation against transcribed ISO 13818-7 / 14496-3 layout tables (object type enumerated, all other fields and the frame length symbolic), accepted-set extraction from path constraints, constant folding of the tables",
+  "text": "For every accepted configuration and every frame length 1..8184 at once: the ADTS header written is the ISO layout bit for bit, Decode run on the ISO layout (either MPEG id, with and without CRC) returns exactly the raw block and the remainder and the configuration's fields, ASC packs 5+4+4 bits both ways and accepts exactly {1,2,3,5,29}x[1,12]x[1,7]; tables fold to ISO values. Payload bytes are opaque; multi-frame streams follow by induction.",
+  "note": "Layout tables are my transcription of the ISO documents; don't-care bits where the standard leaves the value to the writer.",
+ },
 }
